@@ -99,6 +99,21 @@ fn render_compact(ts: &[T]) -> String {
 
 fn check_seq(ts: &[T], ctxs: &[HCtx], st: &mut Stats) {
     check_rendered(ts, render(ts), ctxs, st);
+    // a comment separates tokens exactly like a space
+    if ts.len() >= 2 && ts.len() <= 5 {
+        // (only where the reference lexer reads the same tokens: `/` next to `/**/` would start a line comment)
+        let joined = ts.iter().map(|t| t.text()).collect::<Vec<_>>();
+        let spaced = crate::refmodel::lexer::lex(&render(ts));
+        for sep in ["/**/", "//c\n"] {
+            let src = joined.join(sep);
+            if let (Ok(a), Ok(b)) = (crate::refmodel::lexer::lex(&src), &spaced) {
+                if crate::refmodel::lexer::same_tokens(&a, b) {
+                    check_rendered(ts, src, ctxs, st);
+                    st.count("comment-joined-renderings");
+                }
+            }
+        }
+    }
     // comments are not tokens: a parenthesis inside one changes nothing
     if ts.len() <= 4 {
         let plain = render(ts);
@@ -372,7 +387,7 @@ pub fn run(cfg: &Cfg) -> Report {
     Report {
         property: ID,
         level: "model_checking",
-        rule: format!("depth-first search over every token sequence of length <= {n_rep} over the 12-token class alphabet `1 a + - ! = += ( ) , ; true` and of length <= {n_wide} over the 36-token alphabet with every operator and string literals spelling a parenthesis; sequences of <= 4 tokens also with a comment containing a parenthesis before or after them; a state is a token prefix, a transition appends one token, every state is fed to the real tokenizer/tree builder (and, if it precompiles although ill-formed, evaluated in 5 generous contexts through the shared and the mutable walker). Plus 27 scaling families (a missing or surplus parenthesis, a juxtaposition or a dangling operator at the end of or deep inside a long well-formed input) at every size 1..20 and up to 129 / 1..40 and up to 400. Non-trivial = classified unbalanced or ill-formed by the recogniser; each sequence is enumerated exactly once, so the count is of distinct sequences"),
+        rule: format!("depth-first search over every token sequence of length <= {n_rep} over the 12-token class alphabet `1 a + - ! = += ( ) , ; true` and of length <= {n_wide} over the 36-token alphabet with every operator and string literals spelling a parenthesis; sequences of <= 4 tokens also with a comment containing a parenthesis before or after them, sequences of 2..5 tokens also joined by `/**/` and by a line comment instead of spaces; a state is a token prefix, a transition appends one token, every state is fed to the real tokenizer/tree builder (and, if it precompiles although ill-formed, evaluated in 5 generous contexts through the shared and the mutable walker). Plus 27 scaling families (a missing or surplus parenthesis, a juxtaposition or a dangling operator at the end of or deep inside a long well-formed input) at every size 1..20 and up to 129 / 1..40 and up to 400. Non-trivial = classified unbalanced or ill-formed by the recogniser; each sequence is enumerated exactly once, so the count is of distinct sequences"),
         nontrivial_set: "counter:nontrivial-distinct",
         exhaustive: true,
         bound_completed: format!("length {n_rep} (class alphabet), {n_wide} (wide alphabet)"),
